@@ -79,8 +79,10 @@ def run(ctx):
                     area += si.quad(lambda x: float(sy(x)), c0, c1, epsabs=1e-11, epsrel=1e-11)[0]
                 if a > b:
                     area = -area
-            scale = max(1.0, abs(area))
-            ok_area = abs(got - area) <= 1e-8 * scale
+            # relative to the width of the range as well: a tiny range has a tiny, but not zero, area
+            # relative 1e-8, plus the cancellation error of FITPACK's antiderivative differences (1e-11 absolute):
+            # a tiny range has a tiny, but not zero, area
+            ok_area = abs(got - area) <= 1e-8 * abs(area) + 1e-11
             anti = float(sy.integrate(b, a)) == -got
             for lo, hi, v in splints:
                 if xmin <= lo <= hi <= xmax:
